@@ -17,10 +17,10 @@ const pkgME = "github.com/GoogleCloudPlatform/grpc-gcp-go/grpcgcp/multiendpoint"
 
 type mectx struct {
 	*pool
-	unavailable, available, recovering int64
+	unavailable, available, recovering                            int64
 	ctor, setEps, muc, sft, newEp, sea, seaInner, setState, sched *ssa.Function
-	delayed, recovery                                               *ssa.Function // timer closures
-	current                                                         *ssa.Function
+	delayed, recovery                                             *ssa.Function // timer closures
+	current                                                       *ssa.Function
 }
 
 func newME(c *Ctx, w *World) *mectx {
@@ -259,7 +259,10 @@ func checkC13(c *Ctx, w *World) {
 	// constructor: current = Endpoints[0] under len != 0, and the table is built from the same slice
 	ctorOK := false
 	b := m.ctor.Params[0]
-	isList := func(v ssa.Value) bool { f, base, ok := loadedField(v); return ok && f == "MultiEndpointOptions.Endpoints" && base == ssa.Value(b) }
+	isList := func(v ssa.Value) bool {
+		f, base, ok := loadedField(v)
+		return ok && f == "MultiEndpointOptions.Endpoints" && base == ssa.Value(b)
+	}
 	for _, a := range m.ai.ByFn[m.ctor] {
 		if a.Field == "multiEndpoint.current" && a.What == "store" {
 			st := a.Instr.(*ssa.Store)
@@ -545,7 +548,10 @@ func checkNonEmpty(m *mectx) {
 		var list vpred
 		if fn == m.ctor {
 			b := fn.Params[0]
-			list = func(v ssa.Value) bool { f, base, ok := loadedField(v); return ok && f == "MultiEndpointOptions.Endpoints" && base == ssa.Value(b) }
+			list = func(v ssa.Value) bool {
+				f, base, ok := loadedField(v)
+				return ok && f == "MultiEndpointOptions.Endpoints" && base == ssa.Value(b)
+			}
 		} else {
 			list = isVal(fn.Params[1])
 		}
